@@ -243,3 +243,28 @@ def install_deterministic_zarr_loop():
         th.start()
         zs.iothread[0] = th
     return new_loop
+
+
+def quiesce_zarr_loop(timeout=120):
+    """Block until Zarr's IO loop has no unfinished tasks.
+
+    When one of several concurrent chunk operations of an array call raises (store
+    down, injected I/O error), ``sync()`` returns to the caller while the sibling
+    coroutines are still running in the IO thread.  Letting them race with the
+    simulator thread would make traces - and the overlay they write to - depend
+    on OS scheduling, so the simulator waits for them at every such point."""
+    import zarr.core.sync as zs
+
+    loop = zs.loop[0]
+    if loop is None or not loop.is_running():
+        return
+
+    async def _q():
+        me = asyncio.current_task()
+        for _ in range(1000):
+            others = [t for t in asyncio.all_tasks() if t is not me and not t.done()]
+            if not others:
+                return
+            await asyncio.gather(*others, return_exceptions=True)
+
+    asyncio.run_coroutine_threadsafe(_q(), loop).result(timeout=timeout)
